@@ -267,6 +267,9 @@ TEXT_SINK_PARSERS = ('ast.literal_eval', 'json.loads', '_eval_python_full_spec',
                      'yaml.safe_load', 'tomllib.loads', 'tomli.loads')
 
 
+FLAG_PARAMS = ('target_file', 'spec_file', 'target_format', 'spec_format')
+
+
 def text_flow(funcs):
     """Follows the target text and the spec text from where they are READ to where they are LOADED.
 
@@ -315,20 +318,33 @@ def text_flow(funcs):
             if plain_open(r):
                 return True
             return False
-        if isinstance(e, ast.Call) and isinstance(e.func, ast.Name) and e.func.id in funcs and not e.args \
+        if isinstance(e, ast.Call) and isinstance(e.func, ast.Name) and e.func.id in funcs \
                 and not e.keywords and depth < 3:
+            # a helper of cli.py: handed nothing but sources / flag values, returning nothing but sources
+            # (its parameters among them) and never rebinding what it returns
             g = funcs[e.func.id]
+            if not all(is_source(fn, a, tvars, depth + 1) or (isinstance(a, ast.Name) and a.id in FLAG_PARAMS)
+                       for a in e.args):
+                return False
+            gparams = {a.arg for a in g.args.args}
             rets = [n for n in ast.walk(g) if isinstance(n, ast.Return)]
-            return bool(rets) and all(r.value is not None and is_source(g, r.value, set(), depth + 1) for r in rets)
+            rebound = [n for n in ast.walk(g) if isinstance(n, (ast.Assign, ast.AugAssign, ast.NamedExpr))
+                       for t in (n.targets if isinstance(n, ast.Assign) else [n.target])
+                       for x in ast.walk(t) if isinstance(x, ast.Name) and x.id in gparams
+                       and not is_source(g, n.value, gparams, depth + 1)]
+            return bool(rets) and not rebound and all(
+                r.value is not None and is_source(g, r.value, gparams, depth + 1) for r in rets)
         return False
 
     def returns_of_text_functions():
         # functions of cli.py called without arguments to deliver a text: their returns are recorded
         for n in ast.walk(mw):
-            if isinstance(n, ast.Call) and isinstance(n.func, ast.Name) and n.func.id in funcs and not n.args:
+            if isinstance(n, ast.Call) and isinstance(n.func, ast.Name) and n.func.id in funcs \
+                    and n.func.id not in ('mw_handle_target', '_eval_python_full_spec'):
                 g = funcs[n.func.id]
+                gparams = {a.arg for a in g.args.args}
                 for r in ast.walk(g):
-                    if isinstance(r, ast.Return) and not (r.value is not None and is_source(g, r.value, set(), 1)):
+                    if isinstance(r, ast.Return) and not (r.value is not None and is_source(g, r.value, gparams, 1)):
                         transforms.append((g.name, 'return', U(r.value) if r.value is not None else 'None'))
 
     # the text variables of mw_get_target: what is handed to mw_handle_target / the parsers
@@ -469,6 +485,37 @@ def option_table(P):
         receivers=receivers, provides=provides)
 
 
+TARGET_SELECT_HEAD = 'target_text and target_file'
+
+
+def step_marker(st, funcs):
+    """what a top-level statement of mw_get_target is, independent of how it is spelled"""
+    head = U(st).split('\n')[0]
+    if isinstance(st, ast.Assign) and head.replace('(', '').replace(')', '') == 'spec_text, target_text = None, None':
+        return 'init'
+    if isinstance(st, ast.If) and U(st.test).startswith('len(posargs_) == '):
+        return 'posargs'
+    if isinstance(st, ast.If) and U(st.test) in ('spec_text and spec_file', 'spec_file and spec_text'):
+        return 'spec-source'
+    if isinstance(st, ast.If) and U(st.test) == 'not spec_text':
+        return 'spec-parse'
+    if isinstance(st, ast.If) and U(st.test) in (TARGET_SELECT_HEAD, 'target_file and target_text'):
+        return 'target-source'
+    if (isinstance(st, ast.Assign) and U(st.targets[0]) == 'target_text' and isinstance(st.value, ast.Call)
+            and isinstance(st.value.func, ast.Name) and st.value.func.id in funcs):
+        g = funcs[st.value.func.id]
+        body = [x for x in g.body if not (isinstance(x, ast.Expr) and isinstance(x.value, ast.Constant))]
+        params = [a.arg for a in g.args.args]
+        if ([U(a) for a in st.value.args] == ['target_text', 'target_file'] and params == ['target_text', 'target_file']
+                and body and isinstance(body[0], ast.If) and U(body[0].test) == TARGET_SELECT_HEAD):
+            return 'target-source'
+    if isinstance(st, ast.Assign) and U(st) == 'target = mw_handle_target(target_text, target_format)':
+        return 'handle-target'
+    if isinstance(st, ast.Return) and U(st) == 'return next_(spec=spec, target=target)':
+        return 'next'
+    return '?' + head[:60]
+
+
 def extract(ctx):
     P = ctx['P']
     tree = ctx['src_tree']('cli.py')
@@ -567,12 +614,18 @@ def extract(ctx):
                             and U(node.orelse[0].exc).startswith('UsageError(')):
                         P.add('mw_get_target: the spec_format chain does not end in `raise UsageError`')
                     node = None
-        # the order of the middleware's steps
+    # `spec_format == <constant>` tests of one chain are mutually exclusive: the table is emitted in the
+    # documented order whatever the order in the source
+    if len({f for f, _ in spec_branches}) == len(spec_branches):
+        canon_s = ['python', 'json', 'python-full']
+        spec_branches.sort(key=lambda fk: (canon_s.index(fk[0]) if fk[0] in canon_s else len(canon_s), str(fk[0])))
+    else:
+        P.add('mw_get_target: a spec format is tested twice')
+    # the order of the middleware's steps, as markers: what each top-level statement is
     mw_steps = []
     if mw is not None:
         for st in mw.body:
-            s = U(st).split('\n')[0]
-            mw_steps.append(s)
+            mw_steps.append(step_marker(st, funcs))
 
     # ---- target loaders of mw_handle_target
     loaders = []
@@ -589,32 +642,68 @@ def extract(ctx):
             empty_first = True
         else:
             P.add('mw_handle_target: does not start with `if not target_text: return {}`')
-        chain = [s for s in stmts if isinstance(s, ast.If) and is_fmt_test(s.test, 'target_format')]
-        if len(chain) != 1:
+        # the format → loader decision: an if/elif chain that assigns `load_func`, in mw_handle_target
+        # itself or in a helper it calls as `load_func = helper(target_format)`; written as one chain
+        # or as a sequence of `if <format test>: … return <loader>` statements
+        chain_fn, chain_stmts = ht, stmts
+        for st in stmts:
+            if (isinstance(st, ast.Assign) and U(st.targets[0]) == 'load_func' and isinstance(st.value, ast.Call)
+                    and isinstance(st.value.func, ast.Name) and st.value.func.id in funcs
+                    and [U(a) for a in st.value.args] == ['target_format'] and not st.value.keywords):
+                chain_fn = funcs[st.value.func.id]
+                chain_stmts = [x for x in chain_fn.body if not (isinstance(x, ast.Expr) and isinstance(x.value, ast.Constant))]
+        fmt_var = 'target_format' if chain_fn is ht else (chain_fn.args.args[0].arg if chain_fn.args.args else '?')
+        branches, tail_ok = [], False
+        tops = [x for x in chain_stmts if isinstance(x, ast.If) and is_fmt_test(x.test, fmt_var)]
+        if len(tops) == 1:                      # one if / elif / else chain
+            node = tops[0]
+            while isinstance(node, ast.If):
+                branches.append(node)
+                if len(node.orelse) == 1 and isinstance(node.orelse[0], ast.If) and is_fmt_test(node.orelse[0].test, fmt_var):
+                    node = node.orelse[0]
+                else:
+                    tail_ok = (len(node.orelse) == 1 and isinstance(node.orelse[0], ast.Raise)
+                               and U(node.orelse[0].exc).startswith('UsageError('))
+                    node = None
+        elif len(tops) > 1 and all(not x.orelse for x in tops):      # early returns
+            branches = tops
+            last = chain_stmts[-1] if chain_stmts else None
+            tail_ok = isinstance(last, ast.Raise) and last.exc is not None and U(last.exc).startswith('UsageError(')
+            for x in tops:          # every branch must leave the function (return / raise on every path is not
+                # checked statement by statement: a branch without any return is reported)
+                if not any(isinstance(n, (ast.Return, ast.Raise)) for n in ast.walk(x)):
+                    P.add('mw_handle_target: branch %s of the early-return chain does not return' % U(x.test))
+        if not branches:
             P.add('mw_handle_target: target_format chain not found')
         else:
-            node = chain[0]
-            while isinstance(node, ast.If):
-                pairs = [pr for n in ast.walk(ast.Module(body=node.body, type_ignores=[]))
-                         if isinstance(n, ast.Assign) for pr in assign_pairs(n)]
-                names = sorted({U(v) for t, v in pairs if t == 'load_func'})
+            if not tail_ok:
+                P.add('mw_handle_target: the target_format chain does not end in `raise UsageError`')
+            seen_fmts = []
+            for node in branches:
+                body_mod = ast.Module(body=node.body, type_ignores=[])
+                pairs = [pr for n in ast.walk(body_mod) if isinstance(n, ast.Assign) for pr in assign_pairs(n)]
+                names = {U(v) for t, v in pairs if t == 'load_func'}
+                if chain_fn is not ht or not names:
+                    names |= {U(n.value) for n in ast.walk(body_mod) if isinstance(n, ast.Return) and n.value is not None}
+                names = sorted(names - {'load_func'})
                 for fmt in fmt_values(node.test):
                     branch_vars[fmt] = pairs
+                    if fmt in seen_fmts:
+                        P.add('mw_handle_target: format %r is tested twice' % (fmt,))
+                    seen_fmts.append(fmt)
                 if not names:
                     P.add('mw_handle_target: branch %s assigns no load_func' % U(node.test))
                 # tomllib / tomli are the same parser under two names
                 name = names[0] if len(names) == 1 else '|'.join(names)
                 for fmt in fmt_values(node.test):
                     loaders.append((fmt, kind(name)))
-                if len(node.orelse) == 1 and isinstance(node.orelse[0], ast.If):
-                    node = node.orelse[0]
-                else:
-                    if not (len(node.orelse) == 1 and isinstance(node.orelse[0], ast.Raise)
-                            and U(node.orelse[0].exc).startswith('UsageError(')):
-                        P.add('mw_handle_target: the target_format chain does not end in `raise UsageError`')
-                    node = None
+            # the tests compare one variable with distinct constants: mutually exclusive, so their order
+            # in the source does not matter — the table is emitted in the documented order
+            canon = ['json', 'yaml', 'yml', 'toml', 'python']
+            loaders.sort(key=lambda fk: (canon.index(fk[0]) if fk[0] in canon else len(canon), str(fk[0])))
         tries = [s for s in stmts if isinstance(s, ast.Try)]
-        if (len(tries) == 1 and [U(x) for x in tries[0].body] == ['target = load_func(target_text)']
+        if (len(tries) == 1 and [U(x) for x in tries[0].body] in (['target = load_func(target_text)'],
+                                                                   ['return load_func(target_text)'])
                 and len(tries[0].handlers) == 1 and isinstance(tries[0].handlers[0].body[0], ast.Raise)
                 and U(tries[0].handlers[0].body[0].exc).startswith('UsageError(')):
             htype = tries[0].handlers[0].type
